@@ -14,9 +14,31 @@ lists `Juniper.Gen.TreeAccess` (`putPlan_eq` pins it by `decide`).
 
 Hypotheses (`ConcHyp cmp t puts reads`): `cmp` a strict weak order; the node objects of `t` pairwise
 distinct; goroutine `j < puts.length` executes `Put k_j v_j`, the `k_j` pairwise inequivalent and
-present in `t`; the other goroutines execute `Get` / `Contains` / one iterator step (`lost()` check +
-value read of a cursor parked on a live slot) for keys inequivalent to every `k_j`. `m` is any memory
-that holds `t` (`Rep m t`; `memOf t` is one: `memOf_rep`).
+present in `t`; the other goroutines are readers: `Get` / `Contains` of keys inequivalent to every `k_j`,
+and **range readers** — `Range` / `RangeReverse` / `Iterate` (`Op.scan`, built from the bounds by the two
+regenerated `switch` tables: `scanOf`, `scanOf_bounds`) followed by any number of `Next` calls — such that
+every key stored in `t` that lies inside **both** bounds of the reader is inequivalent to every `k_j`
+(with range readers present `t` satisfies the tree invariant: balanced, strictly sorted — every tree
+reachable from the empty one does). `m` is any memory that holds `t` (`Rep m t`) including its parent
+pointers and zero key slots behind the live prefixes (`AuxRep m t`); `memOf t` is one: `memOf_rep`,
+`memOf_auxRep`.
+
+The range reader is modelled access by access (`Model.BTreeAccess.itNext`): seek, and per `Next` the `lost()`
+check, the in-range test on the remembered key, **then** the value read, then the cursor move through
+child and parent pointers. Two things make it race free. (1) It reads no value slot beyond its *far* bound:
+the statement order of `forwardIterator.Next` / `backwardIterator.Next` (test before `valueUnchecked()`) and
+`cursor.Next` / `Prev` reading keys only — pinned literally by `scanShape_eq`. (Before the repair of defect
+D18 the value of the first key *beyond* the far bound was read: a race with a `Put` to that key.) (2) It
+never visits a key before its *near* bound: `Proofs/TreeAccessScan.lean` shows the machine, program point by
+program point, in the middle of computing the functional cursor functions of `Model.BTree` (`find`,
+`leftmostLeaf`, `rightmostLeaf`, `nextCore` / `prevCore` — the climb through `parent` pointers and
+`xslices.Index` against `climbNext` over `pathTo` frames) on the frozen skeleton (`scanInv_next`), so every
+position whose value it reads is a position of the functional iteration, which C01's seek and successor
+theorems (`seekFwd_spec`, `advance`, …) place inside the near bound.
+
+Not claimed: termination of range readers and that their items equal the sequential ones (only
+`Get`/`Contains` results are), several operations per goroutine, iterators created before the concurrent
+phase (stale cursor generation: the re-seek is `unmodelled`).
 
 What stays trusted for the sentence as a statement about Go: the Go memory model — a program whose
 conflicting plain accesses are all ordered by happens-before is data-race free and sequentially
@@ -33,69 +55,142 @@ variable {K V : Type}
 /-- **No interleaving has a data race.** In every configuration reachable from the initial one no two
 goroutines are about to access the same location with at least one of them writing. -/
 theorem concurrent_puts_race_free (cmp : K → K → Int) (t : Tree K V) (puts : List (K × V)) (reads : List (Op K V))
-    (h : ConcHyp cmp t puts reads) (m : Mem K V) (hm : Rep m t) (c : Config K V)
+    (h : ConcHyp cmp t puts reads) (m : Mem K V) (hm : Rep m t) (hx : AuxRep m t) (c : Config K V)
     (hr : Reach cmp (goroutines puts reads) (initial m (goroutines puts reads)) c) : ¬ Race c :=
-  cinv_no_race (setup_of_hyp h) (reach_inv (setup_of_hyp h) hm hr)
+  cinv_no_race (setup_of_hyp h) (reach_inv (setup_of_hyp h) hm hx hr)
 
-/-- **Every run is finite**: a schedule that can be executed from the initial configuration has at most
-`#goroutines * (wt t + 4)` steps (`wt` = 2·entries + 6 per node). So every maximal run ends in a
-configuration in which nobody can move (`Terminal`); `Reach` and executable schedules are the same
-thing. -/
+/-- **Range readers, spelled out by their bounds.** `Range(lo, hi)` / `RangeReverse(lo, hi)` readers (`rev`; any of the 3×3
+bound kinds, `Iterate` is `Range(Unbounded, Unbounded)`), each calling `Next` any number of times (`n`; a reader may
+abandon its iterator), concurrent with Puts of present, pairwise inequivalent keys on a tree satisfying the tree
+invariant: **no interleaving has a data race, provided every key of `t` inside the bounds of a reader — `aboveLo lo`
+and `belowHi hi`, the interval of C01's ideal `srange` — is inequivalent to every written key.** -/
+theorem concurrent_range_readers_race_free (cmp : K → K → Int) (t : Tree K V) (puts : List (K × V))
+    (bounds : List (Bool × Bound K × Bound K × Nat)) (reads : List (Op K V))
+    (hb : bounds.map (fun b => scanOf b.1 b.2.1 b.2.2.1 b.2.2.2) = reads.map some)
+    (hsw : StrictWeak cmp) (hinv : Inv cmp t) (hd : puts.Pairwise fun p q => cmp p.1 q.1 ≠ 0)
+    (hp : ∀ p ∈ puts, contains cmp t p.1 = true)
+    (hk : ∀ b ∈ bounds, ∀ p ∈ puts, ∀ k' ∈ storedKeys t.root,
+      aboveLo cmp b.2.1 k' = true → belowHi cmp b.2.2.1 k' = true → cmp p.1 k' ≠ 0)
+    (m : Mem K V) (hm : Rep m t) (hx : AuxRep m t) (c : Config K V)
+    (hr : Reach cmp (goroutines puts reads) (initial m (goroutines puts reads)) c) : ¬ Race c := by
+  -- every reader is what `scanOf` makes of some bounds
+  have hscan : ∀ r ∈ reads, ∃ b ∈ bounds, scanOf b.1 b.2.1 b.2.2.1 b.2.2.2 = some r := by
+    intro r hr
+    have hmem : some r ∈ reads.map some := List.mem_map.mpr ⟨r, hr, rfl⟩
+    rw [← hb] at hmem
+    obtain ⟨b, hbm, hbe⟩ := List.mem_map.mp hmem
+    exact ⟨b, hbm, hbe⟩
+  have hfacts : ∀ r ∈ reads, r.isSearch = false ∧ r.isPut = false ∧ ScanWF r ∧
+      ∃ b ∈ bounds, ∀ k, (inRangeOf cmp r k && nearOp cmp r k) = (aboveLo cmp b.2.1 k && belowHi cmp b.2.2.1 k) := by
+    intro r hr
+    obtain ⟨b, hbm, hbe⟩ := hscan r hr
+    have hl : b.2.1.kind ≠ none := by
+      intro h; simp [scanOf, h] at hbe
+      cases hbb : b.1 <;> simp [hbb, rangeSeek, rrangeSeek, rangeStop, rrangeStop, pickSide, h] at hbe
+      all_goals (repeat' split at hbe) <;> simp_all
+    have hh : b.2.2.1.kind ≠ none := by
+      intro h; simp [scanOf, h] at hbe
+      cases hbb : b.1 <;> simp [hbb, rangeSeek, rrangeSeek, rangeStop, rrangeStop, pickSide, h] at hbe
+      all_goals (repeat' split at hbe) <;> simp_all
+    obtain ⟨r', hr', h1, h2, h3⟩ := scanOf_bounds hsw b.1 b.2.1 b.2.2.1 b.2.2.2 hl hh
+    rw [hbe] at hr'
+    cases hr'
+    exact ⟨h1, Op.isPut_of_not_search h1, h2, b, hbm, h3⟩
+  refine concurrent_puts_race_free cmp t puts reads
+    ⟨hsw, hinv.ids.1, hd, hp, fun r hm' => (hfacts r hm').2.1,
+      fun r hm' hs' => absurd hs' (by rw [(hfacts r hm').1]; decide),
+      ?_, fun r hm' _ => (hfacts r hm').2.2.1, fun _ => hinv⟩ m hm hx c hr
+  intro r hm' _ p hpm k' hk' hin hnear
+  obtain ⟨_, _, _, b, hbm, hbk⟩ := hfacts r hm'
+  have := hbk k'
+  rw [hin, hnear] at this
+  simp only [Bool.and_self, Bool.true_eq, Bool.and_eq_true] at this
+  exact hk b hbm p hpm k' hk' this.1 this.2
+
+/-- **What a range reader reads.** In every reachable configuration, the next access of a range reader is a read,
+and if it is a read of a value slot `(x, i)` that is a live slot of the tree, the key stored there is accepted by
+the reader's in-range predicate: the value of the first key beyond the far bound is never read (only its key). -/
+theorem range_reader_reads_in_range_values_only (cmp : K → K → Int) (t : Tree K V) (puts : List (K × V))
+    (reads : List (Op K V)) (h : ConcHyp cmp t puts reads) (m : Mem K V) (hm : Rep m t) (hx : AuxRep m t) (c : Config K V)
+    (hr : Reach cmp (goroutines puts reads) (initial m (goroutines puts reads)) c) :
+    ∀ (j : Nat) op pc a, (goroutines puts reads)[j]? = some op → op.isSearch = false → c.pcs[j]? = some pc →
+      accessOf pc = some a →
+      a.write = false ∧ ∀ x i, a.loc = .node x (.val i) →
+        ∀ y, Sub t.root y → y.id = x → ∀ hlt : i < y.kvs.length, inRangeOf cmp op y.kvs[i].1 = true := by
+  intro j op pc a ho hns hp ha
+  have hs := setup_of_hyp h
+  have hi := reach_inv hs hm hx hr
+  rcases access_class (hs.ok j op ho) (hi.good j op pc ho hp) ha with ⟨hw, hno⟩ | ⟨x, i, hloc, hsk, hw⟩
+  · exact ⟨hw, fun x i hl => absurd hl (hno x i)⟩
+  · refine ⟨by rw [hw]; exact Op.isPut_of_not_search hns, fun x' i' hl => ?_⟩
+    rw [hloc] at hl
+    simp only [Loc.node.injEq, Field.val.injEq] at hl
+    obtain ⟨rfl, rfl⟩ := hl
+    rcases hsk with ⟨hsr, _⟩ | ⟨_, hin⟩
+    · rw [hns] at hsr; cases hsr
+    · exact hin
+
+/-- **Every Put (and Get, Contains) returns after boundedly many steps of its own**: in every schedule that can be
+executed from the initial configuration, the steps taken by the `Put` / `Get` / `Contains` goroutines number at most
+`#goroutines * (wt t + 4)` (`wt` = 2·entries + 6 per node) — however long the range readers go on. `Reach` and
+executable schedules are the same thing. -/
 theorem concurrent_runs_terminate (cmp : K → K → Int) (t : Tree K V) (puts : List (K × V)) (reads : List (Op K V))
-    (h : ConcHyp cmp t puts reads) (m : Mem K V) (hm : Rep m t) :
+    (h : ConcHyp cmp t puts reads) (m : Mem K V) (hm : Rep m t) (hx : AuxRep m t) :
     (∀ sched c, runSched cmp (goroutines puts reads) (initial m (goroutines puts reads)) sched = some c →
-      sched.length ≤ (goroutines puts reads).length * (wt t.root + 4)) ∧
+      searchSteps (goroutines puts reads) sched ≤ (goroutines puts reads).length * (wt t.root + 4)) ∧
     (∀ c, Reach cmp (goroutines puts reads) (initial m (goroutines puts reads)) c ↔
       ∃ sched, runSched cmp (goroutines puts reads) (initial m (goroutines puts reads)) sched = some c) := by
   refine ⟨fun sched c hs => ?_, fun c => ⟨sched_of_reach, fun ⟨s, hs⟩ => reach_of_sched s _ _ hs⟩⟩
-  have := (sched_bound (setup_of_hyp h) sched _ c (cinv_initial hm) hs).1
+  have := (sched_bound (setup_of_hyp h) sched _ c (cinv_initial (setup_of_hyp h) hm hx) hs).1
   have := total_initial t (goroutines puts reads) m
   omega
 
-/-- **All Puts take effect, nothing else changes.** Every maximal run ends with every goroutine
-returned, and the final memory holds exactly the tree `t'` that the functional model's `put`s produce
-when executed sequentially **in any order** (`putAll` over any permutation of the Puts): generation,
-size and the whole skeleton (identities, keys, occupancy, links) are those of `t`; for a well-formed
-`t` the contents are those of the ideal sorted map after `sput k_j v_j` for every `j`
-(each `k_j ↦ v_j`, everything else unchanged). -/
+/-- **All Puts take effect, nothing else changes.** In every reachable configuration in which every `Put` has
+returned (in particular in every configuration in which nobody can move) the memory holds exactly the tree `t'` that
+the functional model's `put`s produce when executed sequentially **in any order** (`putAll` over any permutation of
+the Puts): generation, size and the whole skeleton (identities, keys, occupancy, links) are those of `t`; for a
+well-formed `t` the contents are those of the ideal sorted map after `sput k_j v_j` for every `j`
+(each `k_j ↦ v_j`, everything else unchanged). In a configuration in which nobody can move every `Put` / `Get` /
+`Contains` has returned its sequential result. -/
 theorem concurrent_puts_all_take_effect (cmp : K → K → Int) (t : Tree K V) (puts : List (K × V))
-    (reads : List (Op K V)) (h : ConcHyp cmp t puts reads) (m : Mem K V) (hm : Rep m t) (c : Config K V)
-    (hr : Reach cmp (goroutines puts reads) (initial m (goroutines puts reads)) c)
-    (hterm : Terminal cmp (goroutines puts reads) c) :
-    (∀ (i : Nat) op, (goroutines puts reads)[i]? = some op → c.pcs[i]? = some (PC.done (expected cmp t op))) ∧
-    ∃ t', Rep c.mem t' ∧
-      (∀ puts', puts'.Perm puts → putAll cmp t puts' = some t') ∧
-      t'.gen = t.gen ∧ t'.size = t.size ∧ skel t'.root = skel t.root ∧
-      (WF cmp t → WF cmp t' ∧ toList t'.root = puts.foldl (fun l p => sput cmp p.1 p.2 l) (toList t.root)) := by
+    (reads : List (Op K V)) (h : ConcHyp cmp t puts reads) (m : Mem K V) (hm : Rep m t) (hx : AuxRep m t) (c : Config K V)
+    (hr : Reach cmp (goroutines puts reads) (initial m (goroutines puts reads)) c) :
+    (Terminal cmp (goroutines puts reads) c → PutsDone (goroutines puts reads) c ∧
+      ∀ (i : Nat) op, (goroutines puts reads)[i]? = some op → op.isSearch = true →
+        c.pcs[i]? = some (PC.done (expected cmp t op))) ∧
+    (PutsDone (goroutines puts reads) c →
+      ∃ t', Rep c.mem t' ∧
+        (∀ puts', puts'.Perm puts → putAll cmp t puts' = some t') ∧
+        t'.gen = t.gen ∧ t'.size = t.size ∧ skel t'.root = skel t.root ∧
+        (WF cmp t → WF cmp t' ∧ toList t'.root = puts.foldl (fun l p => sput cmp p.1 p.2 l) (toList t.root))) := by
   have hs := setup_of_hyp h
-  have hi := reach_inv hs hm hr
-  have hrd : ∀ r ∈ reads, r.isPut = false := fun r hm => (h.readers r hm).1
+  have hi := reach_inv hs hm hx hr
+  have hrd : ∀ r ∈ reads, r.isPut = false := h.readers
   have hpres : ∀ p ∈ puts, (slotOf cmp p.1 t.root).isSome = true := by
     intro p hp; rw [slotOf_isSome]; exact h.present p hp
-  refine ⟨terminal_results hi hterm, { t with root := reval (Gof cmp t.root puts) t.root }, ?_, ?_, rfl, rfl,
-    skel_reval _ _, ?_⟩
+  refine ⟨fun hterm => ⟨putsDone_of_terminal hi hterm, terminal_results hi hterm⟩, fun hdone => ?_⟩
+  refine ⟨{ t with root := reval (Gof cmp t.root puts) t.root }, ?_, ?_, rfl, rfl, skel_reval _ _, ?_⟩
   · exact final_rep hs (fun j k v ho => List.mem_of_getElem? (goroutines_put_mem hrd ho))
-      (fun p hp => goroutines_of_put hp) h.distinct hi hterm
+      (fun p hp => goroutines_of_put hp) h.distinct hi hdone
   · intro puts' hperm
     exact putAll_perm h.sw t h.nodup hperm h.distinct hpres
   · intro hw
     exact putAll_refines h.sw puts t _ hw (putAll_perm h.sw t h.nodup (List.Perm.refl _) h.distinct hpres)
 
-/-- **Reads see the sequential values.** Whenever, in any interleaving, a reader has returned, it has
+/-- **Reads see the sequential values.** Whenever, in any interleaving, a `Get` / `Contains` has returned, it has
 returned what the operation returns when run alone on `t`: a `Get k` the value `t` holds for `k`
 (`get cmp t k`; for a well-formed `t` that is the ideal sorted map's value, `get_refines`), a `Contains k`
-whether `k` is in `t`, an iterator step the value in the slot it is parked on. (The Puts concurrent with
-it never change what it reads.) -/
+whether `k` is in `t`. (The Puts concurrent with it never change what it reads.) -/
 theorem concurrent_reads_see_sequential_values (cmp : K → K → Int) (t : Tree K V) (puts : List (K × V))
-    (reads : List (Op K V)) (h : ConcHyp cmp t puts reads) (m : Mem K V) (hm : Rep m t) (c : Config K V)
+    (reads : List (Op K V)) (h : ConcHyp cmp t puts reads) (m : Mem K V) (hm : Rep m t) (hx : AuxRep m t) (c : Config K V)
     (hr : Reach cmp (goroutines puts reads) (initial m (goroutines puts reads)) c) :
-    ∀ (i : Nat) op r, (goroutines puts reads)[i]? = some op → c.pcs[i]? = some (PC.done r) →
+    ∀ (i : Nat) op r, (goroutines puts reads)[i]? = some op → op.isSearch = true → c.pcs[i]? = some (PC.done r) →
       r = expected cmp t op ∧
       (∀ k, op = .get k → r = .val (get cmp t k) ∧
         (WF cmp t → r = .val ((sget cmp k (toList t.root)).map (·.2)))) := by
-  intro i op r ho hp
-  have hi := reach_inv (setup_of_hyp h) hm hr
-  have hg : r = expected cmp t op := hi.good i op _ ho hp
+  intro i op r ho hsr hp
+  have hi := reach_inv (setup_of_hyp h) hm hx hr
+  have hg : r = expected cmp t op := hi.good i op _ ho hp hsr
   refine ⟨hg, ?_⟩
   rintro k rfl
   refine ⟨hg, fun hw => ?_⟩
@@ -105,18 +200,26 @@ theorem concurrent_reads_see_sequential_values (cmp : K → K → Int) (t : Tree
   unfold Juniper.Model.BTree.get
   rw [lookup_refines h.sw k t.root hh hbal hw.sorted]
 
-/-! ## non-vacuity: a well-formed two-level tree, two writers, three readers
+/-! ## non-vacuity: a well-formed two-level tree, two writers, five readers
 
 `exTree` = keys 10 … 70 | 80 | 90 … 150 on two levels (`exTree_wf : WF exCmp exTree`), writers `exPuts` = `80 ↦ 801`
 (the separator in the root) and `120 ↦ 1201`, readers `exReads` = `Get 90` (same leaf as a written key),
-`Contains 85` (absent), an iterator step parked on key 20 with a stale cursor generation; `exHyp : ConcHyp …`
-(all in `Proofs/TreeAccessExample.lean`). -/
+`Contains 85` (absent), `Range(Unbounded, Excluded 80)` (`exRange`: keys 10 … 70; the first key beyond its far bound is
+the written key 80, reached by climbing to the root), `Range(Included 90, Included 110)` (`exMid`: 90, 100, 110 *between* the
+written keys: 80 before its near bound, 120 the first key beyond its far bound) and `RangeReverse(Excluded 120, Unbounded)`
+(`exRangeRev`: 150, 140, 130; the first key beyond is the written key 120 in the same leaf); `exRange_eq`: these are what `scanOf` makes of
+the bounds; `exHyp : ConcHyp …` (all in `Proofs/TreeAccessExample.lean`). -/
 
-/-- an interleaving in which both writers and all readers overlap, run to the end: no race on the way
+set_option maxRecDepth 12000 in
+/-- an interleaving in which both writers and all readers overlap, run to the end (152 accesses): no race on the way
 (checked on every prefix by the theorem, here on the final configuration by evaluation), everybody has
-returned, the final memory holds `80 ↦ 801`, `120 ↦ 1201`, the readers saw `900`, `false`, `200`. -/
+returned, the final memory holds `80 ↦ 801`, `120 ↦ 1201`, the readers saw `900`, `false`, the values of 10 … 70, of
+90, 100, 110 and of 150, 140, 130. -/
 example : ∃ c, runSched exCmp (goroutines exPuts exReads) (initial (memOf exTree) (goroutines exPuts exReads)) exSched = some c ∧
-    c.pcs.map exResult = [some .unit, some .unit, some (.val (some 900)), some (.bool false), some (.val (some 200))] ∧
+    c.pcs.map exResult = [some .unit, some .unit, some (.val (some 900)), some (.bool false),
+      some (.vals [some 100, some 200, some 300, some 400, some 500, some 600, some 700]),
+      some (.vals [some 900, some 1000, some 1100]),
+      some (.vals [some 1500, some 1400, some 1300])] ∧
     hasRace c = false ∧
     c.mem.val 2 0 = some 801 ∧ c.mem.val 1 3 = some 1201 ∧ c.mem.val 1 0 = some 900 ∧ c.mem.gen = 15 ∧ c.mem.size = 15 := by
   refine ⟨_, rfl, ?_⟩
@@ -126,8 +229,15 @@ example : ∃ c, runSched exCmp (goroutines exPuts exReads) (initial (memOf exTr
 being terminal — holds the sequential result. -/
 example : ∀ c, runSched exCmp (goroutines exPuts exReads) (initial (memOf exTree) (goroutines exPuts exReads)) exSched = some c →
     ¬ Race c :=
-  fun c hc => concurrent_puts_race_free exCmp exTree exPuts exReads exHyp _ (memOf_rep exTree exTree_nodup) c
+  fun c hc => concurrent_puts_race_free exCmp exTree exPuts exReads exHyp _ (memOf_rep exTree exTree_nodup) (memOf_auxRep exTree exTree_nodup) c
     (reach_of_sched exSched _ c hc)
+
+set_option maxRecDepth 8000 in
+/-- the value slots the three range readers read, run alone: those of 10 … 70 (node 0), of 90, 100, 110 (node 1, slots 0, 1, 2)
+resp. of 150, 140, 130 (node 1, slots 6, 5, 4) — never `(2, 0)` (key 80) or `(1, 3)` (key 120), whose *keys* they do read. -/
+example : exValReads exRange = (List.range 7).map (fun i => Loc.node 0 (.val i)) ∧
+    exValReads exMid = [.node 1 (.val 0), .node 1 (.val 1), .node 1 (.val 2)] ∧
+    exValReads exRangeRev = [.node 1 (.val 6), .node 1 (.val 5), .node 1 (.val 4)] := by decide
 
 /-! ## the hypothesis "already present" is needed -/
 
@@ -144,12 +254,32 @@ theorem put_absent_key_races :
   obtain ⟨c, hc, hrace⟩ := hrun
   exact ⟨c, reach_of_sched _ _ c hc, hasRace_sound hrace⟩
 
-/-- … and with an iterator step — which reads `gen` — it races on `gen` (`t.gen++` after the
-insertion): 48 accesses of the `Put`, none of the iterator. -/
+set_option maxRecDepth 4000 in
+/-- … and with a range reader — which reads `gen` (`c.gen = c.t.gen`, `lost()`) — it races on `gen` (`t.gen++` after
+the insertion): 48 accesses of the `Put`, 7 of `Range(Unbounded, Excluded 80)`. -/
 theorem put_absent_key_races_on_gen :
-    ∃ c, Reach exCmp [.put 95 7, .iter 0 1 15 20] (initial (memOf exTree) [.put 95 7, .iter 0 1 15 20]) c ∧ Race c := by
-  have hrun : ∃ c, runSched exCmp [.put 95 7, .iter 0 1 15 20] (initial (memOf exTree) [.put 95 7, .iter 0 1 15 20])
-      (List.replicate 48 0) = some c ∧ hasRace c = true := by
+    ∃ c, Reach exCmp [.put 95 7, exRange] (initial (memOf exTree) [.put 95 7, exRange]) c ∧ Race c := by
+  have hrun : ∃ c, runSched exCmp [.put 95 7, exRange] (initial (memOf exTree) [.put 95 7, exRange])
+      (List.replicate 48 0 ++ List.replicate 7 1) = some c ∧ hasRace c = true := by
+    refine ⟨_, rfl, ?_⟩
+    decide
+  obtain ⟨c, hc, hrace⟩ := hrun
+  exact ⟨c, reach_of_sched _ _ c hc, hasRace_sound hrace⟩
+
+/-! ## the hypothesis on range readers is needed — and what defect D18 was -/
+
+set_option maxRecDepth 4000 in
+/-- **Negative witness.** A range whose far bound *includes* a written key — `Range(Unbounded, Included 80)` against
+`Put 80` — does race: after 56 accesses the reader is about to read `values[0]` of the root while the `Put` (3
+accesses) is about to write it. This is exactly what a range *ending before* 80 used to do before the repair of D18
+(the cursor iterator read `(key, value)` of the first entry beyond the bound and `iterator.While` discarded it
+afterwards); now `Range(Unbounded, Excluded 80)` stops on the key alone (`exHyp`, the example above). -/
+theorem range_over_written_key_races :
+    ∃ c, Reach exCmp [.put 80 801, .scan true .first 0 (some (.le, 80)) 100]
+      (initial (memOf exTree) [.put 80 801, .scan true .first 0 (some (.le, 80)) 100]) c ∧ Race c := by
+  have hrun : ∃ c, runSched exCmp [.put 80 801, .scan true .first 0 (some (.le, 80)) 100]
+      (initial (memOf exTree) [.put 80 801, .scan true .first 0 (some (.le, 80)) 100])
+      (List.replicate 3 0 ++ List.replicate 56 1) = some c ∧ hasRace c = true := by
     refine ⟨_, rfl, ?_⟩
     decide
   obtain ⟨c, hc, hrace⟩ := hrun
